@@ -137,6 +137,9 @@ func C04(r *h.Run) {
 		if bi%4 == 3 {
 			cfg.Algo = "tagA"
 		}
+		if bi%5 == 2 {
+			cfg.Max = 8 // the 9- and 20-byte messages are beyond the reader's limit: it skips them
+		}
 		nm := rng.Intn(4)
 		var msgs [][]byte
 		var frames []byte
@@ -168,7 +171,7 @@ func C04(r *h.Run) {
 		}
 		for cut := 0; cut <= len(body); cut++ {
 			for _, fin := range clientFins {
-				for _, withTrailers := range []bool{true, false} {
+				for trailerMode, withTrailers := range []bool{true, false, false} {
 					if cfg.Proto != "grpc" && !withTrailers {
 						continue // trailers are in band
 					}
@@ -176,6 +179,12 @@ func C04(r *h.Run) {
 					tv := v
 					if !withTrailers {
 						tr, tv = http.Header{}, verdict{Kind: "malformed"}
+					}
+					announced := trailerMode == 2
+					if announced {
+						// the response announced its trailers ("Trailer: Grpc-Status, Grpc-Message":
+						// net/http pre-fills Response.Trailer with those keys, nil-valued) and they never came
+						tr = http.Header{"Grpc-Status": nil, "Grpc-Message": nil}
 					}
 					chunks := [][]byte{body[:cut]}
 					if cut > 3 && cut%2 == 0 {
@@ -189,8 +198,8 @@ func C04(r *h.Run) {
 							panic(pp)
 						}
 					})
-					in := map[string]any{"cfg": cfg, "body_hex": h.Hex(body), "cut": cut, "fin": fin.Coq(), "trailers": withTrailers, "verdict": v}
-					r.Eval("client_cut_stream", fmt.Sprintf("%v|%x|%d|%d|%v", cfg, body, cut, fin, withTrailers))
+					in := map[string]any{"cfg": cfg, "body_hex": h.Hex(body), "cut": cut, "fin": fin.Coq(), "trailers": withTrailers, "trailers_announced_only": announced, "verdict": v}
+					r.Eval("client_cut_stream", fmt.Sprintf("%v|%x|%d|%d|%v|%v", cfg, body, cut, fin, withTrailers, announced))
 					if timedOut || p != nil {
 						r.Fail(h.Failure{Key: "cut/hang-or-panic", Family: "client_cut_stream", What: fmt.Sprint("hang or panic: ", p, " timeout=", timedOut), Input: in})
 						continue
@@ -208,7 +217,7 @@ func C04(r *h.Run) {
 						for i, o := range obs {
 							items[i] = o.coq()
 						}
-						r.Case("client_cut_stream", fmt.Sprintf("CRecv %s 0 %s %s %s %s %s %s", cfg.coqProto(), cfg.coqAlgo(), h.CoqBytesList(chunks), fin.Coq(), tv.coq(), sp.coq(), h.CoqList(items)),
+						r.Case("client_cut_stream", fmt.Sprintf("CRecv %s %d %s %s %s %s %s %s", cfg.coqProto(), cfg.Max, cfg.coqAlgo(), h.CoqBytesList(chunks), fin.Coq(), tv.coq(), sp.coq(), h.CoqList(items)),
 							map[string]any{"in": in, "impl_observed": obsStrings(obs)})
 					}
 					r.Sample("client_cut_stream", map[string]any{"in": in, "observed": obsStrings(obs)})
@@ -272,7 +281,7 @@ func C04(r *h.Run) {
 					if cfg.Proto == "grpc" {
 						sp = verdict{Kind: "malformed"}
 					}
-					r.Case("client_cut_unary", fmt.Sprintf("CUnary %s 0 %s %s %s %s %s (%s)", cfg.coqProto(), cfg.coqAlgo(), h.CoqBytesList(chunks), fin.Coq(), v.coq(), sp.coq(), o.coq()),
+					r.Case("client_cut_unary", fmt.Sprintf("CUnary %s %d %s %s %s %s %s (%s)", cfg.coqProto(), cfg.Max, cfg.coqAlgo(), h.CoqBytesList(chunks), fin.Coq(), v.coq(), sp.coq(), o.coq()),
 						map[string]any{"in": in, "impl_observed": o.String()})
 					r.Sample("client_cut_unary", map[string]any{"in": in, "observed": o.String()})
 					complete := cut == len(ubody) && v.Kind == "ok" && (cfg.Proto != "grpc" || fin == h.FinCleanEOF)
